@@ -184,6 +184,7 @@ let codec_mesh file =
   let cur : (string * mesh option) ref = ref ("", None) in
   (* the model decodes the REAL bytes (kept from the MESHBIN line), not its own *)
   let bin : (string * string) ref = ref ("", "") in
+  let bad : (string * string) ref = ref ("", "") in
   List.iter
     (fun line ->
       if String.length line > 5 && String.sub line 0 5 = "MESH " then begin
@@ -223,6 +224,29 @@ let codec_mesh file =
                   | Stuck -> diff "mesh %s: the model decoder is stuck on the real bytes" i)
              | _ -> diff "mesh %s: MESHDEC without MESHBIN" i)
         | _ -> ()
+      end
+      else if String.length line > 8 && String.sub line 0 8 = "MESHBAD " then begin
+        match split_ws line with
+        | [ _; i; hex ] -> bad := (i, if hex = "-" then "" else hex)
+        | _ -> ()
+      end
+      else if String.length line > 11 && String.sub line 0 11 = "MESHBADDEC " then begin
+        (* a truncated download: the real decoder and the model must do the same with the prefix *)
+        match split_ws line with
+        | _ :: i :: _ ->
+            let real = rest_of_line line 2 in
+            (match !bad with
+             | j, hex when j = i ->
+                 incr checked;
+                 (match bin_to_mesh_fast (bytes_of_hex hex) with
+                  | Ok m ->
+                      let mt = mesh_text m in
+                      if real = "PANIC" then diff "mesh %s: the real decoder PANICS on a truncated download (%d bytes), the model returns %s" i (String.length hex / 2) (short mt)
+                      else if mt <> real then diff "mesh %s: truncated download: real bin_to_mesh differs from the model's: real %s | model %s" i (short real) (short mt)
+                  | Panic -> if real <> "PANIC" then diff "mesh %s: truncated download: the model panics, the real decoder returns %s" i (short real)
+                  | Stuck -> diff "mesh %s: the model decoder is stuck on a truncated download" i)
+             | _ -> ())
+        | _ -> ()
       end)
     (read_lines file)
 
@@ -259,6 +283,7 @@ let image_text (i : image) : string =
 let codec_image file =
   let cur : (string * image option) ref = ref ("", None) in
   let bin : (string * string) ref = ref ("", "") in
+  let ibad : (string * string) ref = ref ("", "") in
   List.iter
     (fun line ->
       match split_ws line with
@@ -290,6 +315,20 @@ let codec_image file =
                 | Ok None -> if real <> "NONE" then diff "image %s: the model decoder returns None, the real one %s" i (short real)
                 | Panic -> diff "image %s: the model panics (decompress) on the real bytes" i
                 | Stuck -> diff "image %s: the model decoder is stuck on the real bytes" i)
+           | _ -> ())
+      | [ "IMGBAD"; i; hex ] -> ibad := (i, if hex = "-" then "" else hex)
+      | "IMGBADDEC" :: i :: _ ->
+          let real = rest_of_line line 2 in
+          (match !ibad with
+           | j, hex when j = i ->
+               incr checked;
+               (match bin_to_image_fast (bytes_of_hex hex) with
+                | Ok (Some im) ->
+                    let mt = image_text im in
+                    if mt <> real then diff "image %s: truncated download: real bin_to_image gives %s, the model %s" i (short real) (short mt)
+                | Ok None -> if real <> "NONE" then diff "image %s: truncated download: the model decoder returns None, the real one %s" i (short real)
+                | Panic -> if real <> "PANIC" then diff "image %s: truncated download: the model panics, the real decoder returns %s" i (short real)
+                | Stuck -> diff "image %s: the model decoder is stuck on a truncated download" i)
            | _ -> ())
       | _ -> ())
     (read_lines file)
